@@ -20,3 +20,4 @@ python3 /verif/translator/maps.py /repo /verif/lean/Tv/GenMap.lean >/dev/null
 python3 /verif/translator/drivers.py /repo /verif/lean/Tv/GenDrv.lean >/dev/null
 python3 /verif/translator/gens.py /repo /verif/lean/Tv/GenLin.lean >/dev/null
 python3 /verif/translator/parts.py /repo /verif/lean/Tv/GenPart.lean >/dev/null
+python3 /verif/translator/fdiff.py /repo /verif/lean/Tv/GenFd.lean >/dev/null
